@@ -841,8 +841,36 @@ func c28ChangesExec(h c28Hist) vh.Out {
 	if len(shadowed) > 0 {
 		tags = append(tags, "desired-shadowed-by-helper")
 	}
+	// kept entries whose directory lies properly beneath that of an entry unmounted in the same update, split by
+	// whether the pair straddles the overname boundary (the current entries are sorted overname-first)
+	keptSame, keptCross := []string{}, []string{}
+	key := func(d string) string {
+		if !strings.HasSuffix(d, "/") {
+			d += "/"
+		}
+		return d
+	}
+	for _, k := range obs.changes {
+		if k.Action != Keep {
+			continue
+		}
+		for _, u := range obs.changes {
+			if u.Action != Unmount || key(k.Entry.Dir) == key(u.Entry.Dir) || !strings.HasPrefix(k.Entry.Dir, key(u.Entry.Dir)) {
+				continue
+			}
+			pair := strings.TrimPrefix(k.Entry.Dir, root) + " under " + strings.TrimPrefix(u.Entry.Dir, root)
+			if (k.Entry.XSnapdOrigin() == "overname") != (u.Entry.XSnapdOrigin() == "overname") {
+				keptCross = append(keptCross, pair)
+			} else {
+				keptSame = append(keptSame, pair)
+			}
+		}
+	}
+	if len(keptCross) > 0 {
+		tags = append(tags, "keep-beneath-unmounted-overname")
+	}
 	return vh.Out{Observed: map[string]interface{}{"root": root, "current": cur, "desired": des, "changes": chs, "dirs": obs.dirs,
-		"missing": missing, "shadowed": shadowed},
+		"missing": missing, "shadowed": shadowed, "kept_beneath_same_class": keptSame, "kept_beneath_across_overname": keptCross},
 		Coq: coq, NonTrivial: nk+nu > 0 && nm > 0, Tags: tags}
 }
 
@@ -1111,6 +1139,25 @@ func c28ChangesGen(r *vh.Rand, tier string, n int) []c28Hist {
 		{bind("@/a/b", "x-snapd.origin=layout")},
 		{tmpfsOn("@/a"), bind("@/a/b", "x-snapd.origin=layout")},
 		{tmpfsOn("@/a"), bind("@/a/b", "x-snapd.origin=layout")}}})
+	// nested entries of different origins whose outer one changes, followed by another entry of the outer one's origin:
+	// the reuse scan must still skip the inner entry. All combinations of none/layout/overname for outer and inner.
+	for _, oo := range []string{"", "x-snapd.origin=layout", "x-snapd.origin=overname"} {
+		for _, io := range []string{"", "x-snapd.origin=layout", "x-snapd.origin=overname"} {
+			if oo == io {
+				continue
+			}
+			with := func(dir, origin string, extra ...string) c28Ent {
+				if origin != "" {
+					extra = append(extra, origin)
+				}
+				return bind(dir, extra...)
+			}
+			fixed = append(fixed, c28Hist{Dirs: []string{"a/b/c", "d", "a/b/e"}, Steps: [][]c28Ent{
+				{with("@/a", oo), with("@/a/b", io), with("@/d", oo), with("@/a/b/c", io)},
+				{with("@/a", oo, "noatime"), with("@/a/b", io), with("@/d", oo), with("@/a/b/c", io)},
+				{with("@/a/b", io), with("@/d", oo)}}})
+		}
+	}
 	for _, h := range fixed {
 		for k := range h.Steps {
 			hh := h
@@ -1124,6 +1171,36 @@ func c28ChangesGen(r *vh.Rand, tier string, n int) []c28Hist {
 		if r.Chance(1, 3) { // direct
 			des := c28Profile(r, r.Range(0, 6), pool)
 			ins = append(ins, c28Hist{Dirs: dirs, Files: files, Links: links, Steps: [][]c28Ent{des}, Direct: true, Current: c28WildCurrent(r, des, pool)})
+			continue
+		}
+		if r.Chance(1, 8) { // random instance of the nested-origins shape
+			origins := []string{"", "x-snapd.origin=layout", "x-snapd.origin=overname", "x-snapd.origin=other"}
+			oo, io := origins[r.Intn(4)], origins[r.Intn(4)]
+			outer := c28RelPath(r, 2)
+			inner := outer + "/" + c28RelPath(r, 2)
+			after := r.Pick([]string{"d", "dz", outer + "z", "zz/a"})
+			mk := func(rel, origin string, extra ...string) c28Ent {
+				e := c28Ent{Name: []byte("/s/" + r.Str("abc", 1, 2)), Dir: []byte("@/" + rel), Type: []byte("none"), Opts: [][]byte{[]byte("bind"), []byte("rw")}}
+				for _, x := range append(extra, origin) {
+					if x != "" {
+						e.Opts = append(e.Opts, []byte(x))
+					}
+				}
+				return e
+			}
+			o1, in1, af := mk(outer, oo), mk(inner, io), mk(after, oo)
+			o2 := mk(outer, oo, "noatime")
+			o2.Name = o1.Name
+			h := c28Hist{Dirs: append(dirs, inner, after), Files: files, Links: links,
+				Steps: [][]c28Ent{{in1, o1, af}, {o2, in1, af}, {in1, af}}}
+			if filepath.Clean(after) == filepath.Clean(outer) || strings.HasPrefix(after, outer+"/") {
+				continue
+			}
+			for k := range h.Steps {
+				hh := h
+				hh.K = k
+				ins = append(ins, hh)
+			}
 			continue
 		}
 		h := c28Hist{Dirs: dirs, Files: files, Links: links}
